@@ -4,8 +4,10 @@
     copy clause   for EVERY opcode oracle that tiles the two lists with
                   well-formed blocks ([tiling]): it need not be truthful.
     soundness     for every valid oracle ([valid_ops]: tiling + 'equal' blocks
-                  are pointwise Python-equal), an injective item hash, and
-                  inputs whose dict keys are all looked at ([keys_all]). *)
+                  are pointwise Python-equal) and inputs ([inputs_ok keep ok]) whose
+                  dict keys are all looked at and whose set members all lie where the
+                  item hash is injective; instantiated for the DeepHash model with
+                  ok = tag_safe_atom (Hash/HashModel.v) at the end. *)
 From Coq Require Import List ZArith NArith Bool Arith Lia.
 Import ListNotations.
 From DD Require Import Base.PyStr Base.Value Base.ValueFacts Path.PathModel
@@ -61,13 +63,17 @@ Definition valid_ops (ops : path -> list value -> list value -> list opcode) : P
 Lemma valid_ops_tiling ops : valid_ops ops -> tiling ops.
 Proof. intros H p xs ys. specialize (H p xs ys). apply andb_true_iff in H as [H _]. exact H. Qed.
 
-(* every dict key, at every depth, satisfies [keep] *)
-Fixpoint keys_all (keep : atom -> bool) (v : value) : bool :=
+(* guards on the inputs: every dict key, at every depth, satisfies [keep] (it is looked at)
+   and every set / frozenset member, at every depth, satisfies [ok] (the item hash is
+   injective there) *)
+Fixpoint inputs_ok (keep ok : atom -> bool) (v : value) : bool :=
   match v with
-  | VAtom _ | VSet _ | VFrozen _ => true
-  | VList xs | VTuple xs => forallb (keys_all keep) xs
-  | VDict kvs => forallb (fun kv => keep (fst kv) && keys_all keep (snd kv)) kvs
+  | VAtom _ => true
+  | VList xs | VTuple xs => forallb (inputs_ok keep ok) xs
+  | VDict kvs => forallb (fun kv => keep (fst kv) && inputs_ok keep ok (snd kv)) kvs
+  | VSet xs | VFrozen xs => forallb ok xs
   end.
+Definition any_atom (_ : atom) : bool := true.
 
 (* ------------------------------------------------------------------ *)
 (** * Generic facts *)
@@ -449,7 +455,8 @@ Variable udiff : pystr -> pystr -> pystr.
 Variable ops : path -> list value -> list value -> list opcode.
 Variable excl : path -> bool.
 Variable c : cfg.
-Hypothesis Hinj : forall a b, hatom a = hatom b -> a = b.
+Variable ok : atom -> bool.
+Hypothesis Hinj : forall a b, ok a = true -> ok b = true -> hatom a = hatom b -> a = b.
 Hypothesis Hvalid : valid_ops ops.
 Notation diff := (diff hatom udiff ops noskip excl c).
 Notation keep := (keep_key c).
@@ -517,24 +524,31 @@ Proof.
 Qed.
 
 Lemma set_side_nil k xs ys p :
+  forallb ok xs = true -> forallb ok ys = true ->
   flat_map (fun y => if existsb (pystr_eqb (hatom y)) (map hatom xs) then [] else report_set noskip k y p p)
            (first_per_hash hatom ys []) = [] ->
   forall y, In y ys -> In y xs.
 Proof.
-  intros H y Hy. destruct (fph_cover ys [] y Hy) as [E|(y' & H1 & H2)]; [discriminate E|].
+  intros O1 O2 H y Hy. destruct (fph_cover ys [] y Hy) as [E|(y' & H1 & H2)]; [discriminate E|].
   pose proof (flat_map_nil_inv _ _ H y' H1) as Hp. cbv beta in Hp.
   destruct (existsb (pystr_eqb (hatom y')) (map hatom xs)) eqn:E; [|discriminate Hp].
   apply existsb_exists in E as (h & Hh & Eh). apply in_map_iff in Hh as (x & <- & Hx).
-  apply pystr_eqb_eq in Eh. rewrite H2 in Eh. apply Hinj in Eh. subst. exact Hx.
+  apply pystr_eqb_eq in Eh.
+  assert (Oy : ok y = true) by (eapply forallb_forall in O2; eassumption).
+  assert (Oy' : ok y' = true).
+  { apply (first_per_hash_In hatom udiff) in H1. eapply forallb_forall in O2; eassumption. }
+  assert (Ox : ok x = true) by (eapply forallb_forall in O1; eassumption).
+  apply (Hinj _ _ Oy' Oy) in H2. subst y'. apply (Hinj _ _ Oy Ox) in Eh. subst. exact Hx.
 Qed.
 
 Lemma diff_set_nil xs ys p :
   nodup_atoms xs = true -> nodup_atoms ys = true ->
+  forallb ok xs = true -> forallb ok ys = true ->
   diff_set hatom noskip xs ys p p = [] ->
   Nat.eqb (length xs) (length ys) && forallb (fun x => mem_atom x ys) xs = true.
 Proof.
-  intros N1 N2 H. unfold diff_set in H. apply app_eq_nil in H as [Ha Hr].
-  pose proof (set_side_nil _ _ _ _ Ha) as Iyx. pose proof (set_side_nil _ _ _ _ Hr) as Ixy.
+  intros N1 N2 O1 O2 H. unfold diff_set in H. apply app_eq_nil in H as [Ha Hr].
+  pose proof (set_side_nil _ _ _ _ O1 O2 Ha) as Iyx. pose proof (set_side_nil _ _ _ _ O2 O1 Hr) as Ixy.
   apply andb_true_iff. split.
   - apply Nat.eqb_eq. apply Nat.le_antisymm; apply nodup_incl_le; try assumption;
       intros a Ha'; apply In_mem; auto.
@@ -542,7 +556,7 @@ Proof.
 Qed.
 
 Definition IHS (t1 : value) : Prop :=
-  forall t2 p, wf t1 = true -> wf t2 = true -> keys_all keep t1 = true -> keys_all keep t2 = true ->
+  forall t2 p, wf t1 = true -> wf t2 = true -> inputs_ok keep ok t1 = true -> inputs_ok keep ok t2 = true ->
     fst (diff t1 t2 p p) = [] -> py_eqv t1 t2 = true.
 
 Lemma added_from_nil ys i p1 p2 : added_from noskip ys i p1 p2 = [] -> ys = [].
@@ -550,7 +564,7 @@ Proof. destruct ys; [reflexivity|]. cbn. discriminate. Qed.
 
 Lemma S_go_list xs : Forall IHS xs -> forall ys i p,
   forallb wf xs = true -> forallb wf ys = true ->
-  forallb (keys_all keep) xs = true -> forallb (keys_all keep) ys = true ->
+  forallb (inputs_ok keep ok) xs = true -> forallb (inputs_ok keep ok) ys = true ->
   fst (go_list noskip diff p p xs ys i) = [] -> all2 py_eqv xs ys = true.
 Proof.
   induction 1 as [|x xs Hx _ IH]; intros ys i p W1 W2 K1 K2 H.
@@ -566,7 +580,7 @@ Qed.
 
 Lemma S_seq_body xs ys p : Forall IHS xs ->
   forallb wf xs = true -> forallb wf ys = true ->
-  forallb (keys_all keep) xs = true -> forallb (keys_all keep) ys = true ->
+  forallb (inputs_ok keep ok) xs = true -> forallb (inputs_ok keep ok) ys = true ->
   fst (seq_body hatom udiff ops noskip excl c xs ys p p) = [] -> all2 py_eqv xs ys = true.
 Proof.
   intros IH W1 W2 K1 K2. unfold seq_body.
@@ -579,7 +593,7 @@ Proof.
 Qed.
 
 Lemma keys_of_all kvs :
-  forallb (fun kv => keep (fst kv) && keys_all keep (snd kv)) kvs = true -> keys_of c kvs = map fst kvs.
+  forallb (fun kv => keep (fst kv) && inputs_ok keep ok (snd kv)) kvs = true -> keys_of c kvs = map fst kvs.
 Proof.
   intros K. unfold keys_of. apply filter_all. intros k Hk. apply in_map_iff in Hk as (kv & <- & Hkv).
   eapply forallb_forall in K; [|exact Hkv]. apply andb_true_iff in K as [K _]. exact K.
@@ -587,9 +601,9 @@ Qed.
 
 Lemma S_go_common kvs2 p :
   forallb (fun kv => wf (snd kv)) kvs2 = true ->
-  forallb (fun kv => keep (fst kv) && keys_all keep (snd kv)) kvs2 = true ->
+  forallb (fun kv => keep (fst kv) && inputs_ok keep ok (snd kv)) kvs2 = true ->
   forall l, forallb (fun kv => wf (snd kv)) l = true ->
-  forallb (fun kv => keep (fst kv) && keys_all keep (snd kv)) l = true ->
+  forallb (fun kv => keep (fst kv) && inputs_ok keep ok (snd kv)) l = true ->
   (forall kv, In kv l -> mem_atom (fst kv) (map fst kvs2) = true) ->
   Forall (fun kv => IHS (snd kv)) l ->
   fst (go_common c diff kvs2 (map fst kvs2) p p l) = [] -> dict_go kvs2 l = true.
@@ -616,7 +630,7 @@ Proof.
   cbn [dict_go]. rewrite (assoc_py_eq kvs2 k k' E), A2.
   apply assoc_In in A2 as (k'' & Hin & _).
   assert (Wv2 : wf v2 = true) by (eapply forallb_forall in W2; [|exact Hin]; exact W2).
-  assert (Kv2 : keys_all keep v2 = true).
+  assert (Kv2 : inputs_ok keep ok v2 = true).
   { eapply forallb_forall in K2; [|exact Hin]. apply andb_true_iff in K2 as [_ K2]. exact K2. }
   cbn in Hk. rewrite (Hk v2 _ Wv Wv2 Kv Kv2 H1). cbn [andb].
   apply IH; try assumption. intros kv Hkv. apply M. right. exact Hkv.
@@ -625,7 +639,7 @@ Qed.
 Lemma S_dict_body kvs1 kvs2 p :
   Forall (fun kv => IHS (snd kv)) kvs1 ->
   wf (VDict kvs1) = true -> wf (VDict kvs2) = true ->
-  keys_all keep (VDict kvs1) = true -> keys_all keep (VDict kvs2) = true ->
+  inputs_ok keep ok (VDict kvs1) = true -> inputs_ok keep ok (VDict kvs2) = true ->
   fst (dict_body hatom udiff ops noskip excl c kvs1 kvs2 p p) = [] -> py_eqv (VDict kvs1) (VDict kvs2) = true.
 Proof.
   intros IH W1 W2 K1 K2. cbn in W1, W2, K1, K2.
@@ -656,12 +670,12 @@ Proof.
   - rewrite diff_list by reflexivity. rewrite py_eqv_list. apply S_seq_body; assumption.
   - rewrite diff_tuple by reflexivity. rewrite py_eqv_tuple. apply S_seq_body; assumption.
   - rewrite diff_dict by reflexivity. apply S_dict_body; assumption.
-  - rewrite diff_vset by reflexivity. cbn [fst]. cbn in W1, W2. apply diff_set_nil; assumption.
-  - rewrite diff_vfrozen by reflexivity. cbn [fst]. cbn in W1, W2. apply diff_set_nil; assumption.
+  - rewrite diff_vset by reflexivity. cbn [fst]. cbn in W1, W2, K1, K2. apply diff_set_nil; assumption.
+  - rewrite diff_vfrozen by reflexivity. cbn [fst]. cbn in W1, W2, K1, K2. apply diff_set_nil; assumption.
 Qed.
 
 Theorem run_empty_sound t1 t2 :
-  wf t1 = true -> wf t2 = true -> keys_all keep t1 = true -> keys_all keep t2 = true ->
+  wf t1 = true -> wf t2 = true -> inputs_ok keep ok t1 = true -> inputs_ok keep ok t2 = true ->
   fst (run_diff hatom udiff ops noskip excl c t1 t2) = [] -> py_eqv t1 t2 = true.
 Proof.
   intros W1 W2 K1 K2 H. unfold run_diff in H.
@@ -672,12 +686,31 @@ Qed.
 End Sound.
 
 (* with ignore_private_variables=False every key is looked at *)
-Lemma keys_all_true keep v : (forall k, keep k = true) -> keys_all keep v = true.
+Lemma inputs_ok_true keep ok v : (forall k, keep k = true) -> (forall a, ok a = true) -> inputs_ok keep ok v = true.
 Proof.
-  intros H. induction v as [a|xs IH|xs IH|kvs IH|xs|xs] using value_ind'; try reflexivity; cbn.
+  intros H O. induction v as [a|xs IH|xs IH|kvs IH|xs|xs] using value_ind'; try reflexivity; cbn.
   - apply forallb_forall. intros x Hx. eapply Forall_forall in IH; eassumption.
   - apply forallb_forall. intros x Hx. eapply Forall_forall in IH; eassumption.
   - apply forallb_forall. intros kv Hkv. rewrite H. eapply Forall_forall in IH; [|exact Hkv]. exact IH.
+  - apply forallb_forall. intros x _. apply O.
+  - apply forallb_forall. intros x _. apply O.
+Qed.
+
+(* weakening of the guards *)
+Lemma inputs_ok_weaken keep keep' ok ok' v :
+  (forall k, keep k = true -> keep' k = true) -> (forall a, ok a = true -> ok' a = true) ->
+  inputs_ok keep ok v = true -> inputs_ok keep' ok' v = true.
+Proof.
+  intros HK HO. induction v as [a|xs IH|xs IH|kvs IH|xs|xs] using value_ind'; cbn; intros H; try reflexivity.
+  - apply forallb_forall. intros x Hx. eapply Forall_forall in IH; [|exact Hx]. apply IH.
+    eapply forallb_forall in H; eassumption.
+  - apply forallb_forall. intros x Hx. eapply Forall_forall in IH; [|exact Hx]. apply IH.
+    eapply forallb_forall in H; eassumption.
+  - apply forallb_forall. intros kv Hkv. eapply Forall_forall in IH; [|exact Hkv].
+    eapply forallb_forall in H; [|exact Hkv]. apply andb_true_iff in H as [H1 H2].
+    rewrite (HK _ H1). apply IH. exact H2.
+  - apply forallb_forall. intros x Hx. apply HO. eapply forallb_forall in H; eassumption.
+  - apply forallb_forall. intros x Hx. apply HO. eapply forallb_forall in H; eassumption.
 Qed.
 
 Lemma keep_all_public c k : ignore_private c = false -> keep_key c k = true.
@@ -723,8 +756,8 @@ Definition nv_t2 : value := VList [VDict [(ABool true, VSet [AStr [97%N]; ANone]
 Example sound_guards_satisfiable :
   valid_ops one_block /\ (forall a b, inj_hash a = inj_hash b -> a = b) /\
   wf nv_t1 = true /\ wf nv_t2 = true /\
-  keys_all (keep_key (mkCfg false 33 100 true)) nv_t1 = true /\
-  keys_all (keep_key (mkCfg false 33 100 true)) nv_t2 = true /\
+  inputs_ok (keep_key (mkCfg false 33 100 true)) any_atom nv_t1 = true /\
+  inputs_ok (keep_key (mkCfg false 33 100 true)) any_atom nv_t2 = true /\
   fst (run_diff inj_hash (fun _ _ => []) one_block noskip noskip (mkCfg false 33 100 true) nv_t1 nv_t2) = [] /\
   value_eqb nv_t1 nv_t2 = false.
 Proof.
@@ -754,8 +787,34 @@ Definition k1_t1 : value := VSet [AStr [78%N; 79%N; 78%N; 69%N]].
 Definition k1_t2 : value := VSet [ANone].
 Lemma empty_sound_refuted_hash :
   wf k1_t1 = true /\ wf k1_t2 = true /\
-  keys_all (keep_key (mkCfg false 33 100 false)) k1_t1 = true /\
-  keys_all (keep_key (mkCfg false 33 100 false)) k1_t2 = true /\
+  inputs_ok (keep_key (mkCfg false 33 100 false)) any_atom k1_t1 = true /\
+  inputs_ok (keep_key (mkCfg false 33 100 false)) any_atom k1_t2 = true /\
   fst (run_diff deephash_atom (fun _ _ => []) one_block noskip noskip (mkCfg false 33 100 false) k1_t1 k1_t2) = [] /\
   py_eqv k1_t1 k1_t2 = false.
 Proof. repeat split; vm_compute; reflexivity. Qed.
+
+(* ------------------------------------------------------------------ *)
+(** * Soundness for the model of the real item hash
+      [HashModel.hash_atom H o] = DeepHash of a scalar with hasher H (memo-free);
+      it is injective on scalars that are [tag_safe_atom] (no str equal to 'NONE' or
+      containing ':'), for every injective H and all options other than the mode at
+      their defaults ([plain]) - Hash/HashProofsC07.v [hash_atom_inj]. *)
+From DD Require Hash.HashProofsC07.
+
+Section DeepHash.
+Variable H : pystr -> pystr.
+Hypothesis H_inj : forall s t, H s = H t -> s = t.
+Variable o : HashModel.hopts.
+Hypothesis Hplain : HashModel.plain o = true.
+
+Theorem run_empty_sound_deephash udiff ops excl c t1 t2 :
+  valid_ops ops -> wf t1 = true -> wf t2 = true ->
+  inputs_ok (keep_key c) HashModel.tag_safe_atom t1 = true ->
+  inputs_ok (keep_key c) HashModel.tag_safe_atom t2 = true ->
+  fst (run_diff (HashModel.hash_atom H o) udiff ops noskip excl c t1 t2) = [] -> py_eqv t1 t2 = true.
+Proof.
+  intros V W1 W2 K1 K2 E.
+  eapply (run_empty_sound (HashModel.hash_atom H o) udiff ops excl c HashModel.tag_safe_atom); try eassumption.
+  intros a b Ta Tb Eh. eapply HashProofsC07.hash_atom_inj; eassumption.
+Qed.
+End DeepHash.
